@@ -486,6 +486,8 @@ fn amount_alphabet() -> Vec<Alt> {
         m("zero-dec", "0.00 USD"),
         m("small-dec", "0.001 USD"),
         m("million", "1,234,567.891 USD"),
+        m("unicode-numeric-commodity", "10 CO\u{2082}"),
+        m("superscript-commodity", "120.5 m\u{b2}"),
         m("twenty-digits", "10.000000000000000000 USD"),
         m("grouped-twenty-digits", "25,000,000,000,000,000,000 USD"),
         m("twenty-eight-digits", "1234567890123456789012345678 USD"),
@@ -839,7 +841,7 @@ fn build() -> Gen {
     // E5 commodity declaration
     b.lit("commodity");
     b.put("commodity.kwsp", "directive-space", vec![m("one", " "), m("two", "  "), m("tab", "\t")]);
-    b.put("commodity.name", "declared-commodity", vec![m("ascii", "USD"), m("sym", "$"), m("cjk", "\u{65e5}\u{672c}\u{5186}")]);
+    b.put("commodity.name", "declared-commodity", vec![m("ascii", "USD"), m("sym", "$"), m("cjk", "\u{65e5}\u{672c}\u{5186}"), m("subscript-digit", "CO\u{2082}"), m("superscript-digit", "m\u{b2}"), m("vulgar-fraction", "\u{bd}oz"), m("fullwidth-digit", "\u{ff13}D"), m("accented", "\u{20ac}\u{e9}")]);
     b.put("commodity.trail", "directive-trailing-blanks", vec![m("none", ""), m("space", " "), m("tab-space", "\t ")]);
     b.lit("\n");
     b.put("commodity.comment-before", "sub-comment", sub_comment_alphabet());
